@@ -30,6 +30,8 @@ func checkC15(c *Ctx) {
 	c.Expect("C15-R6", 1)
 	c.Rule("C15-R7", "only the capability is subject to padding: text of the application spliced into it (title, URL) is not searched for $<...> (a constant, base64, or written by a wrapper that strips the capability first)")
 	c.Expect("C15-R7", 2)
+	c.Rule("C15-R10", "%d writes the decimal form of the number it pops (every cursor position and palette index goes out through it): strconv's form handed to the output, or a helper of the interpreter's own decided by constant evaluation for every number from -1000 to 70000")
+	c.Expect("C15-R10", 1)
 	c.Rule("C15-R8", "the interpreter's binary operators are the ones the colour and addressing programs rely on (%< %> %= %- %+ ... : operand order, operator agreement); TColor and TGoto answer through them")
 	c.Expect("C15-R8", 10)
 	if err := tpSelfTest(); err != nil {
@@ -44,6 +46,7 @@ func checkC15(c *Ctx) {
 	c.Rule("C15-R9", "LookupTerminfo leaves the registry as it is: neither it nor what it calls reaches AddTerminfo or writes the map (an entry fabricated for NAME-256color and registered on the fly replaces the built-in base entry)")
 	c.Expect("C15-R9", 1)
 	checkLookupDoesNotRegister(c, p, "C15-R9")
+	checkDecimalOutput(c, p, "C15-R10")
 	db := buildDB(c, p)
 	c15Goto(c, p)
 	c15Addressing(c, p, db)
